@@ -215,11 +215,18 @@ Proof.
     repeat split; try assumption.
     destruct (h_reg (cp_host c)) eqn:R; [right; cbn; apply Ireg; reflexivity|exact A]. }
   destruct (negb (match bs_data (r_target (pv_srvP p1)) with [] => true | _ :: _ => false end)).
-  - destruct (negb (pv_confirmed p1) || negb (bs_eqb (Some fq) (r_name (pv_srv p1))) || match cp_prober c with Some _ => true | None => false end).
+  - destruct (negb (pv_confirmed p1) || negb (bs_eqb (Some fq) (r_name (pv_srv p1)))).
     + pose proof (confirm_ok G p1 (cp_prober c)) as Cf. destruct (confirm p1 (cp_prober c)) as [pb es]. cbn [fst snd cp_host] in *.
       split; [apply PInv_of; split; assumption|]. split; [exact Cf|reflexivity].
-    + destruct (publish_ok G p1 P1) as [Y1 Y2]. destruct (publish p1) as [p2 es]. cbn [fst snd cp_host] in *.
-      split; [apply PInv_of; split; assumption|]. split; [exact Y2|reflexivity].
+    + assert (X : PProv G (fst (if bs_eqb (r_target (pv_srvP p1)) (r_target (pv_srv p1)) then (p1, []) else farewell p1)) /\
+                  all_ok G (snd (if bs_eqb (r_target (pv_srvP p1)) (r_target (pv_srv p1)) then (p1, []) else farewell p1))).
+      { destruct (bs_eqb (r_target (pv_srvP p1)) (r_target (pv_srv p1))); [cbn; split; [exact P1|apply all_ok_nil]|apply farewell_ok, P1]. }
+      destruct (if bs_eqb (r_target (pv_srvP p1)) (r_target (pv_srv p1)) then (p1, []) else farewell p1) as [p2 e2]. cbn [fst snd] in X.
+      destruct X as [X1 X2].
+      destruct (publish_ok G p2 X1) as [Y1 Y2]. destruct (publish p2) as [p3 e3]. cbn [fst snd cp_host] in *.
+      split; [apply PInv_of; split; assumption|]. split; [|reflexivity].
+      apply all_ok_app; [destruct (cp_prober c); [apply all_ok_cons_other; [intros; split; discriminate|]|]; apply all_ok_nil|].
+      apply all_ok_app; assumption.
   - cbn [fst snd cp_host]. split; [apply PInv_of; split; assumption|]. split; [apply all_ok_nil|reflexivity].
 Qed.
 
